@@ -753,6 +753,13 @@ func (k *call) aeadArgs(keyB []byte, msgName string, msgB, nonceB, aadB []byte, 
 		m = k.layout(plain("key", keyB), argSpec{name: msgName, content: msgB, kind: argInPlace}, plain("nonce", nonceB), plain("additionalData", aadB))
 		msg, nonce, aad = m[1], m[2], m[3]
 		dst = msg[:0]
+	case "inplace-capped":
+		// the caller passes the message also as dst, but with the capacity cut at the message's end (x[:0:len(x)]): the
+		// result does not fit and has to go elsewhere; the spare capacity behind the message is the message's, not dst's
+		m = k.layout(plain("key", keyB), argSpec{name: msgName, content: msgB, kind: argInPlace}, plain("nonce", nonceB), plain("additionalData", aadB))
+		msg, nonce, aad = m[1], m[2], m[3]
+		dst = msg[:0:len(msg)]
+		k.a.capDst(msgName)
 	case "sep", "room":
 		m = k.layout(plain("key", keyB), argSpec{name: "dst", content: k.rnd("dst", c.DstLen), kind: argDst, extra: room}, plain(msgName, msgB), plain("nonce", nonceB), plain("additionalData", aadB))
 		dst, msg, nonce, aad = m[1], m[2], m[3], m[4]
